@@ -284,6 +284,43 @@ class SegRun:
         return rc
 
 
+def unhooked_stress(run, secs):
+    """Free-running writer + readers on the UNHOOKED crate (the statements the hooks replace), observational oracle."""
+    d = os.path.join(cb.ROOT, "harness-plain")
+    lk = cb.cargo_lock()
+    try:
+        p = cb.run(["cargo", "build", "--release", "--offline"], cwd=d, timeout=1800)
+        if p.returncode != 0:
+            raise ToolError("unhooked stress harness does not build:\n" + p.stderr[-2000:])
+    finally:
+        lk.close()
+    hook_lint()
+    p = cb.run([os.path.join(d, "target", "release", "stress"), "--secs", str(secs), "--readers", "3"], timeout=secs * 10 + 120)
+    if p.returncode != 0 or not p.stdout.strip():
+        run.rep.violation("unhooked-stress-crashed", f"free-running stress of the unhooked ShmWriter/ShmReader died (rc {p.returncode})", {"kind": "stress", "stderr": p.stderr[-1000:]})
+        return
+    res = json.loads(p.stdout.strip().splitlines()[-1])
+    run.rep.evaluations += 1
+    run.rep.notes.append(f"unhooked free-running stress: {res['publications']} publications, {res['snapshots']} snapshots by {res['readers']} readers in {res['secs']} s, {len(res['violations'])} violations")
+    for v in res["violations"]:
+        prop = v.split()[0]
+        if prop in PROPSETS[run.rep.pid]:
+            run.rep.violation("unhooked-stress", f"free-running stress of the unhooked code: {v}", {"kind": "stress", "result": res})
+
+
+def hook_lint():
+    """The statements mirrored under cfg(clockbound_verif) must still be the ones the hooks were written for."""
+    import re as _re
+    allowed = {"use std::sync::atomic;", "self.ceb.write(*ceb);", "let snapshot = unsafe { self.ceb_shm.read_volatile() };"}
+    for f in ("reader.rs", "writer.rs", "shm_header.rs"):
+        src = open(os.path.join("/repo/clock-bound-shm/src", f)).read().splitlines()
+        for i, line in enumerate(src):
+            if line.strip() == "#[cfg(not(clockbound_verif))]":
+                nxt = src[i + 1].strip() if i + 1 < len(src) else ""
+                if nxt not in allowed:
+                    raise Drift(f"{f}:{i + 2}: the statement guarded by cfg(not(clockbound_verif)) changed to `{nxt}`; its cfg(clockbound_verif) mirror no longer represents the code")
+
+
 def base_cfgs(tier):
     """Configurations shared by the segment checks."""
     q = tier == "quick"
@@ -345,6 +382,7 @@ def c02(tier, seed):
         run.replay(b, False, f"SC cover {name}")
     # T: random schedules
     run.explore(seed, 30 if tier == "quick" else 400, 400 if tier == "quick" else 600, wprog, rprog, what="random schedules (W=7, 3 readers)")
+    unhooked_stress(run, 2 if tier == "quick" else 20)
     if tier == "thorough":
         # the known finding, in the model: with a small modulus TLC finds the in-call wrap by itself
         cw = dict(sc=True, genmod=8, retry=2, readers="R1", maxpub=8, maxcrash=0, maxinc=1, maxcalls=1, files="SFone")
@@ -415,6 +453,7 @@ def c03(tier, seed):
     rep.evaluations += len(ew["cases"])
     rep.notes.append(f"wrap: {[(c['mode'], c['publications_in_between'], c['result']) for c in res['cases']]}")
     rep.sample({"idle-reader wrap cases": [(c['mode'], c['publications_in_between'], c['result']) for c in res['cases']]})
+    unhooked_stress(run, 2 if tier == "quick" else 20)
     run.explore(seed, 30 if tier == "quick" else 400, 400 if tier == "quick" else 600, wprog, rprog, what="random schedules (W=7, 3 readers)")
     glob_samples(cf, rep)
     return run.finish()
